@@ -24,16 +24,18 @@ PROPS = {
     "C20": {
         "title": "Exported metrics match object status and label values match their keys",
         "level": "exploration",
-        "level_text": "Generated-input search against an explicit oracle: random label maps (dots, slashes, dashes, colliding keys, empty) checked for multiset equality {(sanitise(k), v)} against a reference sanitiser, and random object statuses fed to every metric family generator (all families of the ExtendedDaemonSet and of a replica set are generated before any series is read, as the metrics store composes them) with each gauge and label set compared to the status field it documents. Pure functions of small inputs, so tens of thousands of cases per run cover the input classes named in the property; no absence claim beyond that.",
-        "level_note": "Trusted: the reference sanitiser ([^a-zA-Z0-9_] -> '_') and the gauge/field table in the test; metric registration with a live REST config is not exercised (shim returns the generators).",
+        "level_text": "Generated-input search against an explicit oracle: random label maps (dots, slashes, dashes, colliding keys, empty) checked for multiset equality {(sanitise(k), v)} against a reference sanitiser, and random object statuses fed to every metric family generator (all families of the ExtendedDaemonSet and of a replica set are generated before any series is read, as the metrics store composes them) with each gauge and label set compared to the status field it documents. A third job runs the production path end to end - GetExtraMetricHandlers, AddMetrics, list/watch reflectors, kube-state-metrics stores, the /ksmetrics handler - against a fake API server (discovery, list, watch events, 410 Gone and relist) and compares the served text with the series the generators yield for the objects the server holds, after every generated change. Pure functions of small inputs, so tens of thousands of cases per run cover the input classes named in the property; no absence claim beyond that.",
+        "level_note": "Trusted: the reference sanitiser ([^a-zA-Z0-9_] -> '_') and the gauge/field table in the test; the API server of the store job is a fake one (httptest) that serves lists and watch streams the way the real one does for the requests a reflector sends; the controller's own gauges (leader election) are ignored.",
         "technique": "property-based testing (rapid) with reference-model oracle + native go fuzz of label keys/values",
         "quick": {"jobs": [
             rapid_job("labels", "^TestC20Labels$", 20000),
             rapid_job("metrics", "^TestC20Metrics$", 3000, requires="verif_metrics"),
+            rapid_job("store", "^TestC20Store$", 12, requires="verif_metrics", timeout="15m"),
         ]},
         "thorough": {"jobs": [
             rapid_job("labels", "^TestC20Labels$", 200000, shards=8),
             rapid_job("metrics", "^TestC20Metrics$", 30000, shards=8, requires="verif_metrics"),
+            rapid_job("store", "^TestC20Store$", 150, shards=3, requires="verif_metrics", timeout="40m"),
             fuzz_job("fuzz-labels", "^FuzzC20Labels$", fuzztime="60s", workers=8),
         ], },
         "log_violations": True,
